@@ -51,6 +51,7 @@ def main():
 
     if not skip_suite:
         t0 = time.time()
+        shutil.rmtree(wt / ".hypothesis", ignore_errors=True)  # a stale example DB makes an unrelated test flaky
         rc, o = sh("/venv/bin/python -m pytest -q -p no:cacheprovider --timeout=900 tests", cwd=wt, env=env)
         tail = o.strip().splitlines()[-1] if o.strip() else ""
         rec["ran"].append({"cmd": "suite with change", "rc": rc, "tail": tail, "s": round(time.time() - t0)})
@@ -61,26 +62,30 @@ def main():
     rc1, o1 = sh(run_demo, cwd=wt, env=env, timeout=300)
     rec["ran"].append({"cmd": "demo with change", "rc": rc1, "tail": o1.strip().splitlines()[-3:]})
     print("demo with change: rc", rc1)
-    sh("git stash", cwd=wt)
+    # NB: not `git stash` - the stash stack is shared by all worktrees of a
+    # repository, so parallel confirmations would pop each other's changes
+    sh(f"git apply -R {out / 'patch.diff'}", cwd=wt)
     try:
         rc2, o2 = sh(run_demo, cwd=wt, env=env, timeout=300)
     finally:
-        sh("git stash pop", cwd=wt)
+        sh(f"git apply {out / 'patch.diff'}", cwd=wt)
     rec["ran"].append({"cmd": "demo without change", "rc": rc2, "tail": o2.strip().splitlines()[-3:]})
     print("demo without change: rc", rc2)
     if rc1 == 0 or rc2 != 0:
         print("REJECT: demonstration does not discriminate")
         return 1
 
-    # run our checks against it
-    rc, o = sh(f"git -C /repo apply {out / 'patch.diff'}")
+    # run our checks against the worktree with the change applied (NAUYACA_SRC
+    # points the analyser at it; /repo is not touched, so confirmations can run
+    # in parallel).  The patch must still apply cleanly to /repo.
+    rc, o = sh(f"git -C /repo apply --check {out / 'patch.diff'}")
     if rc != 0:
         print("REJECT: patch does not apply to /repo:", o)
         return 1
     fired = {}
     try:
         man = json.loads((VERIF / "MANIFEST.json").read_text())
-        env2 = dict(os.environ, NAUYACA_SA_OUT=f"/tmp/seed_eval_{name}")
+        env2 = dict(os.environ, NAUYACA_SA_OUT=f"/tmp/seed_eval_{name}", NAUYACA_SRC=f"{wt}/src/nauyaca")
         for chk in man["checks"]:
             pid = chk["property_id"]
             rc, o = sh(chk["quick_cmd"], cwd=VERIF, env=env2, timeout=600)
@@ -88,7 +93,6 @@ def main():
             if rc != 0:
                 fired[pid] = {"rc": rc, "findings": keys, "error": [l for l in o.splitlines() if "ANALYSIS-ERROR" in l][:1]}
     finally:
-        sh("git -C /repo checkout -- .")
         shutil.rmtree(f"/tmp/seed_eval_{name}", ignore_errors=True)
     rec["checks_fired"] = fired
     rec["detected_by_target_property"] = prop in fired and fired[prop]["rc"] == 1
